@@ -245,3 +245,32 @@ func cmdReplay(args []string) {
 	}
 	fmt.Printf("not reproduced on the current tree (%s)\n", got)
 }
+
+// list: the registry as a markdown table (used for DESIGN.md).
+func cmdList() {
+	var ids []string
+	for id := range props {
+		ids = append(ids, id)
+	}
+	sort.Strings(ids)
+	for _, id := range ids {
+		p := props[id]
+		fmt.Printf("\n**%s**\n\n| tier | harness | bound |\n|---|---|---|\n", id)
+		inQuick := map[string]bool{}
+		for _, r := range p.Quick {
+			k := fmt.Sprintf("%s%v", r.Entry, r.Args)
+			inQuick[k] = true
+			fmt.Printf("| quick+thorough | `%s%v` | %s |\n", r.Entry, r.Args, r.Bound)
+		}
+		for _, r := range p.Thorough {
+			k := fmt.Sprintf("%s%v", r.Entry, r.Args)
+			if !inQuick[k] {
+				fmt.Printf("| thorough | `%s%v` | %s |\n", r.Entry, r.Args, r.Bound)
+			}
+		}
+		fmt.Println("\nOutside the claim:")
+		for _, o := range p.Outside {
+			fmt.Println("- " + o)
+		}
+	}
+}
